@@ -80,6 +80,7 @@ def run(an: Analysis, rep):
     rep.run(r035, an, rep)
     rep.run(r03w, an, rep)
     rep.run(r03f, an, rep)
+    rep.run(r03y, an, rep)
     from . import c05 as _c05k
     from .common import SharedRules as _SR3
     rep.run(_c05k.r05k, an, _SR3(rep, "R03.K2", "constants are handed to CodeType with value and type unchanged (shared with C05's R05.K2): 'every operand resolves to exactly the given ... constant'"), "R05.K2")
@@ -937,3 +938,117 @@ def r038(an, rep):
                      f"`len({B})` is taken after units of this instruction were already emitted"))
     if not found:
         raise AnalysisError("no store of an instruction's line found in the encoder")
+
+
+# ----------------------------------------------------------------------------- R03.Y
+def r03y(an, rep, rule="R03.Y"):
+    """The statements that write the code units and rebuild the line mapping (from the creation of the mapping to the return) are folded over
+    witness instruction lists with known operands.  Expected, from what CPython does with the result and from where the decoder finds things: the
+    units are EXTENDED_ARG prefixes (high byte first) and the opcode with the low byte; every code unit of an instruction maps to the
+    instruction's line; the redundant table entries an instruction carries are registered at its FIRST code unit (where the table had them)."""
+    from sa.feval import BlockOutcome, FevalError, Obj, ObjEval
+    from .c11 import reference as _ref
+    from .common import data_classes
+    from .line_fold import _ctor
+    rep.rule(rule, "the final assembly (code units, per-unit lines, extra table entries at the first unit) folded over witness instruction lists", 2)
+    cand = None
+    for g in an.closure("to_code"):
+        if not isinstance(g.node, ast.FunctionDef):
+            continue
+        body = g.node.body
+        for i, st in enumerate(body):
+            if isinstance(st, ast.Assign) and len(st.targets) == 1 and isinstance(st.targets[0], ast.Name) and isinstance(st.value, ast.Call) \
+                    and isinstance(st.value.func, ast.Name) and not st.value.args and not st.value.keywords:
+                r = an.prog.resolve_global(g.module, st.value.func.id, g)
+                if r and r[0] == "class" and any(fl.name == "offset_to_line" for fl in r[1].fields):
+                    cand = (g, i, st.targets[0].id)
+    if cand is None:
+        raise AnalysisError("the place where the encoder creates the line mapping it fills while writing code units was not found")
+    g, i0, M = cand
+    body = g.node.body
+    loops = [st for st in body[i0 + 1:] if isinstance(st, ast.For)]
+    if len(loops) != 1 or not isinstance(body[-1], ast.Return):
+        raise AnalysisError(f"{g.qual}: expected one assembly loop between the creation of the mapping and the return")
+    loop = loops[0]
+    # the list of code units: the receiver of .append() in the loop that the return turns into bytes
+    B = {c.func.value.id for c in ast.walk(loop) if isinstance(c, ast.Call) and isinstance(c.func, ast.Attribute) and c.func.attr in ("append", "extend") and isinstance(c.func.value, ast.Name)}
+    B = {b for b in B if any(isinstance(c, ast.Call) and isinstance(c.func, ast.Name) and c.func.id in ("bytes", "bytearray") and c.args and isinstance(c.args[0], ast.Name) and c.args[0].id == b
+                             for c in ast.walk(body[-1]))}
+    if len(B) != 1:
+        raise AnalysisError(f"{g.qual}: the list of code units the assembly loop fills was not recognised")
+    B = next(iter(B))
+    binit = next((k for k, st in enumerate(body) if isinstance(st, (ast.Assign, ast.AnnAssign)) and any(isinstance(t, ast.Name) and t.id == B for t in (st.targets if isinstance(st, ast.Assign) else [st.target]))), None)
+    if binit is None:
+        raise AnalysisError(f"{g.qual}: `{B}` is not initialised at the top level")
+    region = [body[binit]] + [st for k, st in enumerate(body[i0:-1]) if k + i0 != binit]
+    if binit < i0 and any(isinstance(st, (ast.For, ast.While)) for st in body[binit + 1:i0]):
+        raise AnalysisError(f"{g.qual}: code units are written before the line mapping exists")
+    # the blocks and the operand table: the loop's iterable and the subscripted name keyed by (block, instruction)
+    it_names = [n.id for n in ast.walk(loop.iter) if isinstance(n, ast.Name) and n.id in g.params]
+    subs = {s.value.id for s in ast.walk(loop) if isinstance(s, ast.Subscript) and isinstance(s.value, ast.Name) and isinstance(s.slice, ast.Tuple) and len(s.slice.elts) == 2}
+    if len(it_names) != 1 or len(subs) != 1:
+        raise AnalysisError(f"{g.qual}: the assembly loop's inputs (blocks, operand table) were not recognised")
+    blocks_name, args_name = it_names[0], next(iter(subs))
+    ins_ci = next((ci for ci in data_classes(an) if ci.name == "Instruction"), None)
+    if ins_ci is None:
+        raise AnalysisError("Instruction class not found")
+    mk = _ctor(ins_ci)
+
+    def resolve(name):
+        r = an.prog.resolve_global(g.module, name, g)
+        return r[1].node if r and r[0] == "func" and r[1].cls is None else None
+    for V in VERSIONS:
+        R = _ref(V)
+        EXT = R["EXTENDED_ARG"]
+        om = R["opmap"]
+        # (name, blocks as lists of (opname, operand, recorded width, line, extra entries))
+        W = [
+            ("a prefixed instruction that carries extra table entries", [[("LOAD_CONST", 300, None, 5, (1, -1))]]),
+            ("three code units after a plain instruction, then a block without a line", [[("NOP", 0, None, 1, ()), ("LOAD_CONST", 70000, None, 2, (0,))], [("RETURN_VALUE", 0, None, None, ())]]),
+            ("a recorded width of three for a small operand", [[("LOAD_NAME", 1, 3, 7, (2,)), ("POP_TOP", 0, None, 7, ())]]),
+            ("four code units", [[("LOAD_CONST", 0x01020304, None, 3, ())]]),
+        ]
+        bad = []
+        for wname, wb in W:
+            blocks = tuple(tuple(mk(name=n, arg=a, _n_args_override=w, line_number=ln, _line_offsets_override=tuple(x)) for n, a, w, ln, x in b) for b in wb)
+            argtab = {(bi, ii): ins[1] for bi, b in enumerate(wb) for ii, ins in enumerate(b)}
+            units, lines, extra = [], {}, {}
+            for b in wb:
+                for n, a, w, ln, x in b:
+                    k = max(w or 1, 1 if a <= 0xFF else 2 if a <= 0xFFFF else 3 if a <= 0xFFFFFF else 4)
+                    if x:
+                        extra[len(units)] = list(x)
+                    for j in reversed(range(k)):
+                        lines[len(units)] = ln
+                        units += [om[n] if j == 0 else EXT, (a >> (8 * j)) & 0xFF]
+            extra_cls = {}
+            for mod in an.prog.modules.values():
+                if mod.name.startswith("code_data") and not mod.is_test:
+                    for ci in mod.classes.values():
+                        if ci.is_dataclass:
+                            extra_cls[ci.name] = _ctor(ci)
+            ev = ObjEval(resolve, extra={**extra_cls, "dis": {"opmap": dict(om), "EXTENDED_ARG": EXT, "HAVE_ARGUMENT": R["HAVE_ARGUMENT"]}, "EXTENDED_ARG": EXT, "opmap": dict(om),
+                                         "opcode": {"opmap": dict(om), "EXTENDED_ARG": EXT}, "sys": {"version_info": tuple(V) + (0, "final", 0)}})
+            ev.module_assigns = g.module.assigns
+            env = {blocks_name: blocks, args_name: argtab}
+            try:
+                ev.exec(region, env)
+            except BlockOutcome as o:
+                bad.append(f"{wname}: the assembly stops at `{norm_src(o.node)[:60]}`")
+                continue
+            except Exception as ex:  # noqa: BLE001 - a gap of the evaluator, never a verdict
+                raise AnalysisError(f"{g.qual}: the assembly statements are not evaluable on the witness instructions ({type(ex).__name__}: {ex})")
+            mp = env.get(M)
+            gl, gx, gu = (mp.get("offset_to_line"), mp.get("offset_to_additional_line_offsets")) + (env.get(B),) if isinstance(mp, Obj) else (None, None, None)
+            if not isinstance(gl, dict) or not isinstance(gx, dict) or not isinstance(gu, list):
+                raise AnalysisError(f"{g.qual}: mapping / code units after the assembly are not in a form the fold can read")
+            gx = {k: list(v) for k, v in gx.items() if v}
+            if list(gu) != units:
+                bad.append(f"{wname}: code units {list(gu)[:12]}, expected {units[:12]}")
+            elif dict(gl) != lines:
+                bad.append(f"{wname}: lines per code-unit offset {dict(gl)}, expected {lines}")
+            elif gx != extra:
+                bad.append(f"{wname}: extra table entries registered at {gx}, the decoder found them at the instruction's first code unit: {extra}")
+        rep.add(rule, f"{g.qual}::assembly of witness instructions [{vname(V)}]", not bad, loc(g.module, loop),
+                f"{len(W)} witness lists (1-4 code units, recorded width, extra table entries, a block without a line): units, per-unit lines and the offsets of extra entries as expected" if not bad else
+                bad[0] + (f" (+{len(bad) - 1} more)" if len(bad) > 1 else "") + " - the line table written for such data differs from the one it was decoded from")
